@@ -113,7 +113,18 @@ def part_script(args, wd, viol, stats):
         shutil.rmtree(out, ignore_errors=True)
         os.makedirs(out)
         grp = SubmissionGroup(name="g", submitter_params=SubmitterParams(hpc_config=HpcConfig(hpc_type="slurm", job_prefix=prefix, hpc=SlurmConfig(account=account, walltime=wall, **opts))))
-        mgr = HpcManager({"g": grp}, out)
+        # the batch's group is one of 1-3 groups with different SLURM settings, at a random position
+        groups = {}
+        others = rng.randint(0, 2)
+        pos = rng.randint(0, others)
+        for gi in range(others + 1):
+            if gi == pos:
+                groups["g"] = grp
+            else:
+                o2 = {k: rng.choice(OPTIONAL[k]) for k in keys if rng.random() < 0.4}
+                groups[f"other{gi}"] = SubmissionGroup(name=f"other{gi}", submitter_params=SubmitterParams(hpc_config=HpcConfig(hpc_type="slurm", job_prefix="x", hpc=SlurmConfig(account=f"otheracct{gi}", walltime="9:09:09", **o2))))
+        stats["scripts_for_a_non_first_group"] = stats.get("scripts_for_a_non_first_group", 0) + (1 if pos > 0 else 0)
+        mgr = HpcManager(groups, out)
         run_script = os.path.join(out, "run_batch_7.sh")
         job_id, status = mgr.submit(out, name, run_script, "g", dry_run=True)
         txt = open(os.path.join(out, name + ".sh")).read()
